@@ -447,3 +447,146 @@ Proof.
 Qed.
 
 End Classes.
+
+(* ------------------------------------------------------------------ *)
+(** * The two maps *)
+
+Lemma set_all_spec : forall l k v, (forall a, In a l -> a < length v) ->
+  length (fold_left (fun v a => set_nth a k v) l v) = length v /\
+  forall x, nth_nat (fold_left (fun v a => set_nth a k v) l v) x =
+            if memb x l then k else nth_nat v x.
+Proof.
+  induction l as [|a r IH]; intros k v Hb; cbn [fold_left].
+  - split; [reflexivity|]. intros x. reflexivity.
+  - assert (Ha : a < length v) by (apply Hb; left; reflexivity).
+    destruct (IH k (set_nth a k v)) as [IH1 IH2].
+    { intros x Hx. rewrite length_set_nth. apply Hb. right. exact Hx. }
+    rewrite length_set_nth in IH1. split; [exact IH1|].
+    intros x. rewrite IH2. unfold memb. cbn [existsb]. fold (memb x r).
+    destruct (memb x r); [rewrite orb_true_r; reflexivity|]. rewrite orb_false_r.
+    destruct (Nat.eqb x a) eqn:E.
+    + apply Nat.eqb_eq in E. subst x. apply nth_nat_set_eq. exact Ha.
+    + apply Nat.eqb_neq in E. apply nth_nat_set_neq. intros K. apply E. symmetry. exact K.
+Qed.
+
+Lemma NoDup_app_inv : forall (l1 l2 : list nat), NoDup (l1 ++ l2) ->
+  NoDup l2 /\ forall x, In x l1 -> In x l2 -> False.
+Proof.
+  induction l1 as [|y m IH]; intros l2 H; cbn [app] in H.
+  - split; [exact H | intros x []].
+  - inversion H as [|? ? Hy Hrest]; subst. destruct (IH l2 Hrest) as [K1 K2]. split; [exact K1|].
+    intros x [Hx|Hx] Hx2.
+    + subst y. apply Hy. apply in_or_app. right. exact Hx2.
+    + exact (K2 x Hx Hx2).
+Qed.
+
+Definition i2r_step (acc : nat * list nat) (c : eqclass) : nat * list nat :=
+  let '(class_id, v) := acc in
+  (S class_id, fold_left (fun v arg_id => set_nth arg_id class_id v) (members c) v).
+
+Lemma i2r_fold_spec : forall cls k v,
+  NoDup (flat cls) -> (forall x, In x (flat cls) -> x < length v) ->
+  let r := snd (fold_left i2r_step cls (k, v)) in
+  (forall i c a, nth_error cls i = Some c -> In a (members c) -> nth_nat r a = k + i) /\
+  (forall x, ~ In x (flat cls) -> nth_nat r x = nth_nat v x).
+Proof.
+  induction cls as [|c0 r IH]; intros k v Hnd Hb; cbn [fold_left i2r_step].
+  - cbn [snd]. split; [intros [|i] c a H; discriminate H | reflexivity].
+  - change (c0 :: r) with ([c0] ++ r) in Hnd, Hb. rewrite flat_app, flat_single in Hnd, Hb.
+    destruct (set_all_spec (members c0) k v) as [S1 S2].
+    { intros a Ha. apply Hb. apply in_or_app. left. exact Ha. }
+    destruct (IH (S k) (fold_left (fun v a => set_nth a k v) (members c0) v)) as [IH1 IH2].
+    { apply (NoDup_app_inv _ _ Hnd). }
+    { intros x Hx. rewrite S1. apply Hb. apply in_or_app. right. exact Hx. }
+    cbv zeta in IH1, IH2. split.
+    + intros [|i] c a Hn Ha.
+      * cbn [nth_error] in Hn. inversion Hn; subst c. rewrite IH2.
+        { rewrite S2. apply memb_In in Ha. rewrite Ha. lia. }
+        intros K. destruct (NoDup_app_inv _ _ Hnd) as [_ Hdis].
+        exact (Hdis a Ha K).
+      * cbn [nth_error] in Hn. rewrite (IH1 i c a Hn Ha). lia.
+    + intros x Hx. change (c0 :: r) with ([c0] ++ r) in Hx. rewrite flat_app, flat_single in Hx.
+      rewrite IH2 by (intros K; apply Hx; apply in_or_app; right; exact K).
+      rewrite S2. destruct (memb x (members c0)) eqn:E; [|reflexivity].
+      exfalso. apply Hx. apply in_or_app. left. apply memb_In. exact E.
+Qed.
+
+Lemma init_to_reduced_ids_spec : forall n cls,
+  NoDup (flat cls) -> (forall x, In x (flat cls) -> x < n) ->
+  forall i c a, nth_error cls i = Some c -> In a (members c) ->
+    nth_nat (init_to_reduced_ids n cls) a = i.
+Proof.
+  intros n cls Hnd Hb i c a Hn Ha. unfold init_to_reduced_ids.
+  change (fun acc c => let '(class_id, w) := acc in
+            (S class_id, fold_left (fun w' arg_id => set_nth arg_id class_id w') (members c) w))
+    with i2r_step.
+  destruct (i2r_fold_spec cls 0 (repeat 0 n) Hnd) as [K _].
+  { intros x Hx. rewrite repeat_length. apply Hb. exact Hx. }
+  cbv zeta in K. rewrite (K i c a Hn Ha). reflexivity.
+Qed.
+
+Lemma maps_spec : forall F n cls, compact_af F n -> compute_classes F = Done cls ->
+  (forall a, a < n -> init_to_reduced F cls a < length cls /\
+                      In a (reduced_to_init cls (init_to_reduced F cls a))) /\
+  (forall r c, nth_error cls r = Some c -> reduced_to_init cls r = members c) /\
+  (forall r b, r < length cls -> In b (reduced_to_init cls r) -> init_to_reduced F cls b = r).
+Proof.
+  intros F n cls HF Hc. destruct (compute_classes_inv F n HF cls Hc) as (Hnd & Hin & _).
+  assert (Hlen : length (args F) = n) by (destruct HF as [Ha _]; rewrite Ha; apply seq_length).
+  assert (Hspec : forall i c a, nth_error cls i = Some c -> In a (members c) ->
+                    init_to_reduced F cls a = i).
+  { intros i c a Hn Ha. unfold init_to_reduced. rewrite Hlen.
+    apply (init_to_reduced_ids_spec n cls Hnd) with (c := c); [|exact Hn|exact Ha].
+    intros x Hx. apply Hin. exact Hx. }
+  split; [|split].
+  - intros a Ha. apply Hin in Ha. apply in_flat in Ha. destruct Ha as (c & Hc1 & Hc2).
+    apply In_nth_error in Hc1. destruct Hc1 as [i Hi].
+    rewrite (Hspec i c a Hi Hc2). split.
+    + apply nth_error_Some. congruence.
+    + unfold reduced_to_init. rewrite Hi. exact Hc2.
+  - intros r c Hr. unfold reduced_to_init. rewrite Hr. reflexivity.
+  - intros r b Hr Hb. unfold reduced_to_init in Hb.
+    destruct (nth_error cls r) as [c|] eqn:E; [|destruct Hb].
+    apply (Hspec r c b E Hb).
+Qed.
+
+(* the fields of the computer are the classes and the id map *)
+Lemma computer_fields : forall lab F e, equivalency_new lab F = Done e ->
+  compute_classes F = Done (e_classes e) /\
+  e_i2r e = init_to_reduced_ids (length (args F)) (e_classes e) /\
+  forall r, reduced_arg_to_init_args e r = option_map members (nth_error (e_classes e) r).
+Proof.
+  intros lab F e H. unfold equivalency_new in H.
+  destruct (compute_classes F) as [cls| |]; try discriminate.
+  unfold reduce_af in H. destruct (firsts cls) as [fs|]; try discriminate.
+  destruct (ofold _ _ _) as [f| |]; try discriminate.
+  inversion H; subst e. cbn [e_classes e_i2r]. split; [reflexivity|]. split; reflexivity.
+Qed.
+
+(* partition, stated as a permutation *)
+Lemma classes_partition : forall F n cls, compact_af F n -> compute_classes F = Done cls ->
+  Permutation (flat cls) (seq 0 n) /\ forall c, In c cls -> members c <> [].
+Proof.
+  intros F n cls HF Hc. destruct (compute_classes_inv F n HF cls Hc) as (Hnd & Hin & Hgood).
+  split.
+  - apply NoDup_Permutation; [exact Hnd | apply seq_NoDup|].
+    intros x. rewrite Hin, in_seq. lia.
+  - intros c Hcin. apply (Hgood c Hcin).
+Qed.
+
+Lemma classes_same : forall F n cls, compact_af F n -> compute_classes F = Done cls ->
+  forall c a b, In c cls -> In a (members c) -> In b (members c) -> same_co F a b.
+Proof.
+  intros F n cls HF Hc c a b Hcin Ha Hb.
+  destruct (compute_classes_inv F n HF cls Hc) as (_ & _ & Hgood).
+  destruct (Hgood c Hcin) as [_ [K _]]. apply K; assumption.
+Qed.
+
+Lemma classes_grounded : forall F n cls, compact_af F n -> compute_classes F = Done cls ->
+  (forall v, In (Grounded v) cls -> forall E, co F E -> incl v E) /\
+  (forall v, In (GroundedDefeated v) cls -> forall E d, co F E -> In d v -> ~ In d E).
+Proof.
+  intros F n cls HF Hc. destruct (compute_classes_inv F n HF cls Hc) as (_ & _ & Hgood). split.
+  - intros v Hv. destruct (Hgood _ Hv) as [_ [_ K]]. exact K.
+  - intros v Hv. destruct (Hgood _ Hv) as [_ [_ K]]. exact K.
+Qed.
